@@ -99,7 +99,6 @@ class Session:
         self.assumed = []  # human-readable assumptions added by primitives
         self.params = {}  # name -> SymC
         self.atoms = {}  # name -> (c_idx, s_idx)
-        self.fresh = {}  # memo key -> SymC
         self.inexact = []  # float literals read as exact binary rationals
         self.abstract = abstract
         # path exploration
@@ -1291,7 +1290,12 @@ def _guard_iat(orig, symbolic):
     def f(*a, **k):
         if anysym(a) or anysym(k):
             return None
-        return orig(*a, **k)
+        try:
+            return orig(*a, **k)
+        except ValueError as e:  # symbolic data nested deeper than the scan above (e.g. operands of symbolic operators)
+            if "received object" in str(e):
+                return None
+            raise
 
     return f
 
